@@ -269,6 +269,32 @@ struct El<Tracked> {
   static int64_t val(const Tracked& x) { return x.read(); }
 };
 
+// element types whose size (12, 24 bytes) does not divide the 32-byte block header of InsertBag: the first
+// element slot of a block is then not simply "header size / element size" slots in
+struct E12 {
+  int32_t v, a, b;
+  E12() : v(0), a(~0), b(0) {}
+  E12(int64_t x) : v((int32_t)x), a(~(int32_t)x), b((int32_t)x * 3) {}
+};
+struct E24 {
+  int64_t v, a, b;
+  E24() : v(0), a(~0LL), b(0) {}
+  E24(int64_t x) : v(x), a(~x), b(x * 3) {}
+};
+static_assert(sizeof(E12) == 12 && sizeof(E24) == 24, "element sizes");
+template <>
+struct El<E12> {
+  static constexpr bool tracked = false;
+  static E12 make(int64_t v) { return E12(v); }
+  static int64_t val(const E12& x) { return (x.a == ~x.v && x.b == x.v * 3) ? x.v : -987654321; }
+};
+template <>
+struct El<E24> {
+  static constexpr bool tracked = false;
+  static E24 make(int64_t v) { return E24(v); }
+  static int64_t val(const E24& x) { return (x.a == ~x.v && x.b == x.v * 3) ? x.v : -987654321; }
+};
+
 // after every operation: no registry violation, and exactly as many element
 // objects alive as the model says the containers hold
 template <class T>
@@ -1754,7 +1780,13 @@ void normalize_case(Case& c) {
   auto mod = [](int64_t v, int64_t n) { return (int64_t)((uint64_t)v % (uint64_t)n); };
   c[F_CONT]    = mod(c[F_CONT], NCONT);
   c[F_CHUNK]   = mod(c[F_CHUNK], nchunks((int)c[F_CONT]));
-  c[F_ELEM]    = mod(c[F_ELEM], 2);
+  c[F_ELEM]    = mod(c[F_ELEM], 4);
+  if (c[F_CONT] != C_INSERTBAG)
+    c[F_ELEM] = mod(c[F_ELEM], 2); // 12- and 24-byte elements only for InsertBag
+  // implicit precondition: a block must hold its 32-byte header and at least one element slot behind it;
+  // 64-byte blocks of 24-byte elements have no slot at all (every push would write past the block)
+  if (c[F_CONT] == C_INSERTBAG && c[F_ELEM] == 3 && CHUNKS[C_INSERTBAG][mod(c[F_CHUNK], (int64_t)CHUNKS[C_INSERTBAG].size())] == 64)
+    c[F_ELEM] = 2;
   c[F_THREADS] = c[F_CONT] == C_INSERTBAG ? 1 + mod(c[F_THREADS] - 1, 3) : 1;
   c[F_PREFILL] = mod(c[F_PREFILL], MAX_PREFILL + 1);
 }
@@ -1776,13 +1808,13 @@ Case generate() {
   int cont     = *gen::weightedElement<int>({{6, C_GDEQUE}, {5, C_RING}, {2, C_FSBAG}, {2, C_CFSBAG}, {3, C_GSLIST}, {3, C_CGSLIST}, {4, C_INSERTBAG}});
   c[F_CONT]    = cont;
   c[F_CHUNK]   = *uni(0, nchunks(cont));
-  c[F_ELEM]    = *uni(0, 2);
+  c[F_ELEM]    = cont == C_INSERTBAG ? *uni(0, 4) : *uni(0, 2);
   c[F_THREADS] = cont == C_INSERTBAG ? *uni(1, 4) : 1;
   int chunk    = CHUNKS[cont][c[F_CHUNK]];
   // prefill: none, or around one / two chunk boundaries
   int bound = chunk;
   if (cont == C_INSERTBAG) // elements per block: BlockSize / sizeof(T) minus the header slots
-    bound = chunk == 0 ? 12 : c[F_ELEM] ? chunk / 8 - 5 : chunk / 4 - 9;
+    bound = chunk == 0 ? 12 : c[F_ELEM] == 3 ? chunk / 24 - 2 : c[F_ELEM] == 2 ? chunk / 12 - 3 : c[F_ELEM] ? chunk / 8 - 5 : chunk / 4 - 9;
   switch (*gen::weightedElement<int>({{4, 0}, {3, 1}, {2, 2}})) {
   case 0:
     c[F_PREFILL] = 0;
@@ -1880,11 +1912,20 @@ static void __attribute__((noinline)) dispatch(const Case& c) {
     }
     break;
   default:
+#define IBAG_DISPATCH(BS)                                                                                              \
+  if (elem == 0)                                                                                                       \
+    run_insertbag<int, BS>(c);                                                                                         \
+  else if (elem == 1)                                                                                                  \
+    run_insertbag<Tracked, BS>(c);                                                                                     \
+  else if (elem == 2)                                                                                                  \
+    run_insertbag<E12, BS>(c);                                                                                         \
+  else                                                                                                                 \
+    run_insertbag<E24, BS>(c);
     switch (chunk) {
-    case 0: CHUNK_DISPATCH(run_insertbag, 0) break;
-    case 64: CHUNK_DISPATCH(run_insertbag, 64) break;
-    case 128: CHUNK_DISPATCH(run_insertbag, 128) break;
-    default: CHUNK_DISPATCH(run_insertbag, 256)
+    case 0: IBAG_DISPATCH(0) break;
+    case 64: IBAG_DISPATCH(64) break;
+    case 128: IBAG_DISPATCH(128) break;
+    default: IBAG_DISPATCH(256)
     }
   }
 }
